@@ -59,6 +59,10 @@ type Order struct {
 	// from the source: an if-statement in startRaft whose condition mentions oldwal together with a
 	// call, and whose body assigns oldwal = false.
 	FreshOnUnusedWAL bool `json:"fresh_on_unused_wal"`
+	// Atoms: every assignment to isMeNewLeader / waitApply in processReady (with its guards); AtomsChanged: they are
+	// not the ones the driver's readyStage implements
+	Atoms        []string `json:"atoms,omitempty"`
+	AtomsChanged bool     `json:"atoms_changed,omitempty"`
 }
 
 // BuiltinOrder is node/raft.go as of the verified tree (used when extraction fails).
@@ -108,7 +112,7 @@ func (o Order) String() string {
 	}
 	sortStrings(d)
 	return strings.Join(b, " ") + " | " + strings.Join(o.Persist, ",") + " | " + strings.Join(d, "; ") + " | " + o.Source +
-		fmt.Sprintf(" | restart: fresh-on-unused-wal=%v", o.FreshOnUnusedWAL)
+		fmt.Sprintf(" | restart: fresh-on-unused-wal=%v", o.FreshOnUnusedWAL) + o.atomsNote()
 }
 
 func sortStrings(a []string) {
@@ -251,6 +255,7 @@ type walker struct {
 	fset   *token.FileSet
 	call   func(name string, gs []G)
 	assign func(lhs string, rhs ast.Expr, define bool, gs []G)
+	rng    []string // enclosing range expressions (context of the statement being visited)
 }
 
 func (w *walker) stmts(list []ast.Stmt, gs []G) {
@@ -289,7 +294,9 @@ func (w *walker) stmt(st ast.Stmt, gs []G) {
 	case *ast.ForStmt:
 		w.stmts(s.Body.List, gs)
 	case *ast.RangeStmt:
+		w.rng = append(w.rng, exprString(w.fset, s.X))
 		w.stmts(s.Body.List, gs)
+		w.rng = w.rng[:len(w.rng)-1]
 	case *ast.SelectStmt:
 		for _, cc := range s.Body.List {
 			if c, ok := cc.(*ast.CommClause); ok {
@@ -354,7 +361,21 @@ func ExtractOrder(repo string) Order {
 	w.assign = func(lhs string, rhs ast.Expr, define bool, gs []G) {
 		txt := exprString(fset, rhs)
 		if lhs == "isMeNewLeader" || lhs == "waitApply" {
-			return // atoms / handled by the driver itself
+			// atoms computed by the driver itself (readyStage): their computation in the source is recorded and compared
+			// with the form the driver implements
+			a := lhs + " = " + txt
+			for _, r := range w.rng {
+				a += " {range " + r + "}"
+			}
+			for _, g := range gs {
+				if g.Neg {
+					a += " [not(" + g.Expr + ")]"
+				} else {
+					a += " [" + g.Expr + "]"
+				}
+			}
+			o.Atoms = append(o.Atoms, a)
+			return
 		}
 		if define {
 			if txt == "false" || txt == "true" {
@@ -478,6 +499,12 @@ func ExtractOrder(repo string) Order {
 	if len(o.Persist) != 3 {
 		return BuiltinOrder(fmt.Sprintf("persistRaftState order %v", o.Persist))
 	}
+	o.AtomsChanged = len(o.Atoms) != len(ExpectedAtoms)
+	for i := range o.Atoms {
+		if !o.AtomsChanged && o.Atoms[i] != ExpectedAtoms[i] {
+			o.AtomsChanged = true
+		}
+	}
 	return o
 }
 
@@ -517,4 +544,23 @@ func RepoPath() string {
 		return p
 	}
 	return "/repo"
+}
+
+// ExpectedAtoms is the computation of isMeNewLeader / waitApply that Cluster.readyStage implements.
+var ExpectedAtoms = []string{
+	"isMeNewLeader = false",
+	"isMeNewLeader = (rd.RaftState == raft.StateLeader) [rd.SoftState != nil]",
+	"waitApply = false",
+	"waitApply = true {range rd.CommittedEntries} [!isMeNewLeader] [ent.Type == raftpb.EntryConfChange]",
+	"waitApply = true [!raft.IsEmptySnap(rd.Snapshot)] [!waitApply]",
+}
+
+func (o Order) atomsNote() string {
+	if o.Source != "ast" {
+		return ""
+	}
+	if o.AtomsChanged {
+		return " | ATOMS CHANGED: " + strings.Join(o.Atoms, " ;; ")
+	}
+	return " | atoms: as implemented by the driver"
 }
